@@ -647,3 +647,41 @@ func evaluationsRunUnderTheCallersContext(c *core.Ctx) {
 	}
 	c.Stat("init_context_sites", n)
 }
+
+// ---------------------------------------------------------------------------
+// suppliedGlobalsReplaceTheOldOnes: the option that supplies globals to a VM
+// starts the table of input globals afresh for each set of options it is part
+// of.  A table that only ever grows keeps, on a reused VM, every global an
+// earlier invocation supplied: a later invocation configured without it
+// (WithoutGlobal("os")) still finds the module, by import or through a
+// hoisted name.
+func suppliedGlobalsReplaceTheOldOnes(c *core.Ctx) {
+	p := c.P
+	vmT := vmType(p)
+	gi := fieldIdxByName(vmT, "inputGlobals")
+	if gi < 0 {
+		core.Undecidedf("VirtualMachine.inputGlobals not found")
+	}
+	n := 0
+	for _, fn := range repoFns(p, "vm") {
+		if fn.Parent() == nil {
+			continue // option closures only
+		}
+		if updatesMapField(fn, vmT, gi) == nil {
+			continue
+		}
+		n++
+		fresh := false
+		for _, st := range storesToField(fn, vmT, gi) {
+			if _, ok := st.Val.(*ssa.MakeMap); ok {
+				fresh = true
+			}
+		}
+		c.Check(fresh, core.SSAName(fn)+"|input-globals-started-afresh", p.Pos(fn.Pos()),
+			core.SSAName(fn)+" adds to the VM's table of input globals"+ife(fresh, " and starts the table afresh (for the first such option of a set)", " and never starts it afresh: on a reused VM the globals of every earlier invocation stay, whatever the configuration of the current one leaves out"))
+	}
+	if n == 0 {
+		core.Undecidedf("no option closure writes VirtualMachine.inputGlobals")
+	}
+	c.Stat("global_supplying_options", n)
+}
